@@ -695,11 +695,25 @@ def gen_case(rng, i):
     elif opening == 3 and chain != [0]:            # subclass replacement, then clear
         script = ["get", "set_sub", "clear", "get_state"]
     tainted = False    # a nested in-place set happened since the snapshot was taken (see Model/StateStore.v wb_clean)
+    elif opening == 4:                             # list and string indexing, negative indices
+        script = ["listset", "listassign", "listget", "strset", "strget"]
+    lkey = "a" if chain == [0] else "g1"
     while len(ops) < max(n, len(script)):
         k = script[len(ops)] if len(ops) < len(script) else rng.choice(OPK)
         if k == "snap_write" and tainted:
             k = "get_state"
-        if k == "numset":
+        if k == "listset":
+            o = ("set", lkey, [gen_value(rng, 2) for _ in range(rng.randint(2, 4))])
+        elif k == "listassign":
+            ln = len(orc.d[lkey])
+            o = ("set", "%s.%s" % (lkey, rng.choice(["-1", str(-ln), str(ln - 1), "-2"])), gen_value(rng, 1))
+        elif k == "listget":
+            o = ("get", "%s.%s" % (lkey, rng.choice(["-1", "-2", str(-len(orc.d[lkey]))])), rng.choice([None, (0,)]))
+        elif k == "strset":
+            o = ("set", lkey + ".0", rng.choice(["xyz", "he"]))
+        elif k == "strget":
+            o = ("get", lkey + ".0." + rng.choice(["-1", "0", "1"]), None)
+        elif k == "numset":
             p = rng.choice(["0", "1", "-1", "01", "10"]) + rng.choice(["", ".a", ".0", ".a.b"])
             o = ("set", p, gen_value(rng, 1))
         elif k == "numget":
